@@ -250,6 +250,15 @@ func (x *tr) expr(e ast.Expr) (string, string) {
 			abort(n, "deref of non-pointer %s : %s", s, ty)
 		}
 		return "oget 0 " + paren(s), strings.TrimPrefix(ty, "opt ")
+	case *ast.IndexExpr:
+		// data[i] on a []byte: Base.GoInt.idx answers the impossible octet -1 outside the slice (Go panics there),
+		// so a theorem that equates the result with the model's excludes every out-of-range read
+		d, td := x.expr(n.X)
+		i, ti := x.expr(n.Index)
+		if td != "bytes" || !isInt(ti) || ti == "time" {
+			abort(n, "index %s[%s]", td, ti)
+		}
+		return "(idx " + paren(d) + " " + paren(i) + ")", "byte"
 	case *ast.BinaryExpr:
 		return x.binary(n)
 	case *ast.CallExpr:
